@@ -21,6 +21,9 @@ func (runInfo *runInfoStruct) invokeExpr() {
 		runInfo.rv, runInfo.err = runInfo.env.GetValue(expr.Lit)
 		if runInfo.err != nil {
 			runInfo.err = newError(expr, runInfo.err)
+			// not the addressable env.NilValue the lookup hands back with its error: a caught error would leave
+			// it as the value of the statement, and a script could then overwrite it for every environment
+			runInfo.rv = nilValue
 		}
 
 	// LiteralExpr
